@@ -46,6 +46,7 @@ def make_scenarios(ctx, count):
         s.iface(0, **H.iface_kw(cfg)).glob(**G.global_kw(glob))
         s.add("OPT sleep=0")
         reqs = []      # (kind, type, offset, seq) aligned with inputs
+        quick = set()  # indices of requests sent in the quick-discovery service
 
         def feed(fr, info):
             s.frame(0, fr)
@@ -92,7 +93,11 @@ def make_scenarios(ctx, count):
                 feed(W.qlt(net.own, net.mappers[m2], q2, typ, off, eth_src=net.bridges[m2] if rng.random() < 0.5 else None),
                      ("call", typ, off, q2))
                 rep_other = True
-            feed(W.qlt(net.own, net.mappers[m], q, typ, off, eth_src=net.bridges[m] if bridged else None),
+            # a request without a sequence number is not answered, whichever service it is sent in
+            tos = rng.choice([0, 1, 1]) if q == 0 else 0
+            if tos:
+                quick.add(len(reqs))
+            feed(W.qlt(net.own, net.mappers[m], q, typ, off, eth_src=net.bridges[m] if bridged else None, tos=tos),
                  ("call", typ, off, q))
             if rng.random() < 0.1:
                 feed(G.f_probe(rng, net), ("other",))
@@ -143,7 +148,7 @@ def make_scenarios(ctx, count):
                         if len(d) - off <= ln or off + ln > 0xFFFF:
                             break
                         off += ln
-        s.meta = dict(reqs=reqs, glob=glob, mtu=mtu, own=cfg["mac"], globs=globs, switch_at=switch_at, mtu_at=mtu_at, mtu2=mtu2)
+        s.meta = dict(reqs=reqs, glob=glob, mtu=mtu, own=cfg["mac"], globs=globs, switch_at=switch_at, mtu_at=mtu_at, mtu2=mtu2, quick=quick)
         scns.append(s)
     return scns
 
@@ -163,17 +168,20 @@ def make_session_scenarios(ctx, count):
         s.iface(0, **H.iface_kw(cfg)).glob(**G.global_kw(glob))
         s.add("OPT sleep=0")
         reqs = []
+        quick = set()
         gaps = 0
         for fr in frames:
             if i % 2 and rng.random() < 0.25:
                 s.add("ADV %d" % rng.choice(s.GAPS_MS))
                 gaps += 1
             s.frame(0, fr)
-            if len(fr) >= 36 and fr[15] == 0 and fr[17] == W.OP_QLT:
+            if len(fr) >= 36 and fr[17] == W.OP_QLT and (fr[15] == 0 or (fr[15] == 1 and fr[30:32] == b"\0\0")):
+                if fr[15] == 1:
+                    quick.add(len(reqs))
                 reqs.append(("call", fr[32], struct.unpack(">H", fr[34:36])[0], struct.unpack(">H", fr[30:32])[0]))
             else:
                 reqs.append(("other",))
-        s.meta = dict(reqs=reqs, glob=glob, mtu=mtu, own=cfg["mac"], clock_gaps=gaps)
+        s.meta = dict(reqs=reqs, glob=glob, mtu=mtu, own=cfg["mac"], clock_gaps=gaps, quick=quick)
         scns.append(s)
     return scns
 
@@ -203,6 +211,7 @@ def monitor(scn, sobj, rep, sf, ck):
                           % (scn.sid, idx + 1, typ, off, q, len(d), mtu, msg), replay=sobj.text())
         sends = inp.sends()
         if q == 0:
+            rep.count("seq_zero_requests:" + ("quick-discovery" if idx in sobj.meta.get("quick", ()) else "topology-discovery"))
             if inp.out[0] != 0:
                 bad("seq-zero-answered", "%d frames sent for sequence number 0" % inp.out[0])
             continue
@@ -279,7 +288,7 @@ def run(ctx):
                 "online-oracle sweeps over (size, offset) grids per MTU; non-trivial = distinct (mtu, type, size, offset) "
                 "with a non-empty payload")
     rep.assumptions = ["the icon is changed only across Resets (it is cached per session by design)",
-                       "requests are judged for the topology-discovery service; sizes above 32768 are outside the quantifier"]
+                       "requests are judged for the topology-discovery service (in the quick-discovery service only: sequence number 0 is not answered); sizes above 32768 are outside the quantifier"]
     binary, plainf = H.build_many(ctx.work, [dict(flavour="asan"), dict(flavour="plain")])
     scns = make_scenarios(ctx, ctx.n(600, 15000)) + make_session_scenarios(ctx, ctx.n(600, 15000))
     run_monitored(ctx, binary, scns, monitor, tag="qlt")
@@ -291,6 +300,8 @@ def run(ctx):
     rep.need("reassemblies", c.get("reassemblies", 0), 1200)
     rep.need("reassemblies_3plus_chunks", c.get("reassemblies_3plus_chunks", 0), 50)
     rep.need("types:unknown", c.get("types:unknown", 0), 100)
+    rep.need("seq_zero_requests:quick-discovery", c.get("seq_zero_requests:quick-discovery", 0), 100)
+    rep.need("seq_zero_requests:topology-discovery", c.get("seq_zero_requests:topology-discovery", 0), 100)
     rep.need("friendly-name-ends-in-a-zero-word", c.get("content:friendly-name-ends-in-a-zero-word", 0), 30)
     rep.need("icon-ends-in-a-zero-byte", c.get("content:icon-ends-in-a-zero-byte", 0), 10)
     rep.need("second_session_reassemblies", c.get("second_session_reassemblies", 0), 300)
